@@ -303,9 +303,22 @@ def check_case(ctx, rng, idx):
         for k, v in stats.items():
             ctx.count(k, v)
 
+        def same(got, exp):
+            # records are compared by their documented leading fields: a record type may carry additional trailing fields
+            if isinstance(exp, tuple):
+                return isinstance(got, (tuple, list)) and len(got) >= len(exp) and all(same(g_, e_) for g_, e_ in zip(got, exp))
+            if isinstance(exp, list):
+                return isinstance(got, (tuple, list)) and len(got) == len(exp) and all(same(g_, e_) for g_, e_ in zip(got, exp))
+            if isinstance(exp, dict):
+                try:
+                    return set(got.keys()) == set(exp.keys()) and all(same(got[k_], exp[k_]) for k_ in exp)
+                except AttributeError:
+                    return False
+            return got == exp
+
         def eq(what, got, exp):
             ctx.count('attributes_compared')
-            if got != exp:
+            if not same(got, exp):
                 ctx.violation('def-attribute', f'{what}: parsed {got!r}, the file states {exp!r}', case)
                 return False
             return True
